@@ -31,6 +31,10 @@ package lexerql
 
 //@ ghost func builderContent(b *strings.Builder) string
 
+// Runes the scanner has not delivered yet (ghost; text/scanner is modelled as: Next returns EOF
+// exactly when this is 0 and otherwise consumes one rune).
+//@ ghost state func scanRemaining(s *scanner.Scanner) int
+
 // The unit is cut out of what has been written to the builder so far (no slice panic), and the
 // token class follows the unit: byte-size suffixes give Bytes, time suffixes give Duration.
 //@ func ScanUnit
@@ -42,6 +46,7 @@ package lexerql
 //@   ensures[time-suffixes] ret1 == nil && ret0.Type == Duration ==> tl_called && (tl_r0 == "ns" || tl_r0 == "us" || tl_r0 == "µs" || tl_r0 == "μs" || tl_r0 == "ms" || tl_r0 == "s" || tl_r0 == "m" || tl_r0 == "h" || tl_r0 == "d" || tl_r0 == "w")
 //@   ensures[three-classes] ret1 == nil ==> ret0.Type == Number || ret0.Type == Bytes || ret0.Type == Duration
 //@   loop 0 invariant suffixStart <= len(builderContent(&sb)) && 0 <= suffixStart
+//@   loop 0 decreases scanRemaining(s)
 //@ func isValueRune
 //@   inline
 //@ func isUnitRune
@@ -50,3 +55,14 @@ package lexerql
 //@   inline
 //@ func IsBytesRune
 //@   inline
+
+//@ scope comment.go
+
+// A comment ends at the end of the line or of the input, whichever comes first.
+//@ func ScanComment
+//@   loop 0 decreases scanRemaining(s)
+
+//@ scope duration.go
+
+//@ func ScanDuration
+//@   loop 0 decreases scanRemaining(s)
